@@ -180,6 +180,27 @@ theorem C15_no_dead_of_holds (ttl : Nat → Nat) (pre : Store) (view : List Key)
   have := held_good_mono q _ hg
   simp [heldStep] at this
 
+/-- **Every heartbeat tick of a holder extends the claim.** When the 30 s ticker of a thread that
+holds `k` fires (heartbeat running, renewal in the tier of the claim, no storage fault), the claim
+marker is rewritten with a full `ttl` from now and the history records `rnw` — on every backend, since
+the model's store is the backend-independent reference.  A tick of a running holder that renews
+nothing without an injected fault is observed as `dead` and rejected by `holds`
+(`C15_no_dead_of_holds`): with ticks every 30 s such a holder's claim would lapse after 90 s. -/
+theorem C15_heartbeat_tick_extends_lease (P : Params) (c : Cfg) (tid : Nat) (k : Key) (rest : List Op)
+    (hops : (c.threads tid).ops = .renewOwn :: rest) (hown : (c.threads tid).own = some k)
+    (hhb : (c.threads tid).hb = true) (hrn : P.renewShared = true) :
+    lookup (stepThread P c tid).store k = some (expiry c.now (P.ttl k.1)) ∧
+    live (stepThread P c tid).store (c.now + (P.ttl k.1 - 1)) k = true ∧
+    (stepThread P c tid).trace = c.trace ++ [.rnw tid k.1 k.2] := by
+  unfold stepThread
+  simp only [hops, hown, hhb, hrn, if_true]
+  refine ⟨lookup_put_self _ _ _, ?_, trivial⟩
+  simp only [live, lookup_put_self, alive, expiry]
+  by_cases hz : P.ttl k.1 = 0
+  · simp [hz]
+  · simp only [hz, if_false, Bool.or_eq_true, beq_iff_eq, decide_eq_true_eq]
+    right; omega
+
 /-- **Heartbeat cancelled when the allocation returns (seeded defect).** With a heartbeat that does
 not outlive `AllocateNodeID` the holder's ticks renew nothing, the claim lapses after the lease while
 node 0 is running, and node 1 is given node 0's id. -/
